@@ -52,12 +52,27 @@ func (h TimerHandle) Stop() bool {
 	}
 	was := !h.t.stopped
 	h.t.stopped = true
+	h.t.drain()
 	return was
+}
+
+// drain discards a fired-but-unreceived value: since Go 1.23 no stale value is observable
+// on a timer channel after Stop or Reset has returned.
+func (t *timer) drain() {
+	if t.ch == nil {
+		return
+	}
+	if s := active; s != nil {
+		if cs := s.chanOf(t.ch); cs != nil {
+			cs.buf = nil
+		}
+	}
 }
 
 func (s *Sched) Reset(h TimerHandle, d time.Duration) bool {
 	was := !h.t.stopped
 	h.t.stopped = false
+	h.t.drain()
 	h.t.deadline = s.now + int64(d)
 	found := false
 	for _, x := range s.timers {
